@@ -4,7 +4,8 @@
    running the productions and tables regenerated from /repo (the CssV.Gen files), fullsheet = false.
    Lexeme classes, `text`, `classify`, `ok_follow` (adjacency): CssV.Lexemes.                    *)
 From CssV Require Import Base Regex RegexFacts LexemeRegex Gen.Productions Gen.TokTables Tokenizer
-  Lexemes LexemeFacts LexemeSweep LexemeEscape.
+  Lexemes LexemeFacts LexemeMore LexemeSweep LexemeEscape.
+From CssV Require Respell.
 
 (* ---- general regex facts, proved once ---- *)
 
@@ -46,6 +47,19 @@ Print Assumptions first_path_is_match.
 Theorem ident_lexeme : forall d e0 els rest, ok_follow (LIdent d e0 els) rest = true -> wins (LIdent d e0 els) rest.
 Proof. exact LexemeFacts.ident_lexeme. Qed.
 Print Assumptions ident_lexeme.
+(* FUNCTION versus IDENT, exactly as coded (tokenize2.py l.186-190): a name directly followed by '(' is a FUNCTION
+   token name+'(' unless the RAW name lower-cased is "and" (ok_follow (LIdent ..) admits '(' after it only then) *)
+Theorem function_lexeme : forall d e0 els rest, ok_follow (LFunction d e0 els) rest = true -> wins (LFunction d e0 els) rest.
+Proof. exact LexemeFacts.function_lexeme. Qed.
+Print Assumptions function_lexeme.
+Example and_exception :
+  ok_follow (LIdent false (P 65) [P 110; P 68]) (s "(x") = true /\            (* AnD( -> IDENT AnD, CHAR ( *)
+  ok_follow (LFunction false (P 65) [P 110; P 68]) (s "x") = false /\
+  ok_follow (LFunction false (H [54%N; 49%N] []) [P 110; P 100]) (s "x") = false /\   (* escape-initial: sweep only *)
+  ok_follow (LFunction false (P 97) [H [54%N; 101%N] [32%N]; P 100]) (s "x") = true /\ (* a\6e d( -> FUNCTION *)
+  ok_follow (LFunction false (P 117) [P 110]) (s "x") = true /\                 (* un( : plain u, u_safe *)
+  ok_follow (LIdent false (P 117) [P 114; P 108]) (s " ") = false.              (* url : not covered (sweep) *)
+Proof. vm_compute. repeat split; reflexivity. Qed.
 Theorem ws_lexeme : forall xs rest, ok_follow (LWs xs) rest = true -> wins (LWs xs) rest.
 Proof. exact LexemeFacts.ws_lexeme. Qed.
 Print Assumptions ws_lexeme.
@@ -73,9 +87,20 @@ Print Assumptions comment_lexeme.
 Theorem match_ops_lexeme : forall o rest, wins (LOp o) rest.
 Proof. exact LexemeFacts.op_lexeme. Qed.
 Print Assumptions match_ops_lexeme.
-Theorem delim_lexeme : forall c rest, ok_follow (LDelim c) rest = true -> wins (LDelim c) rest.
+Theorem delim_lexeme : forall c rest, ok_follow (LDelim c) rest = true -> wins (LDelim c) rest.   (* fast, pure and context delimiters *)
 Proof. intros c rest. apply lexeme_wins. Qed.
 Print Assumptions delim_lexeme.
+
+(* context-dependent delimiters: the character is a CHAR token whenever ctx_delim_ok holds, i.e.
+     ~ | ^ $ *  not followed by '='        /  not followed by '*'        .  not followed by a digit
+     +  not followed by a digit or by '.' digit          <  not followed by "!--"
+     @  not followed by an identifier start (optional '-', then nmstart char / non-ASCII / backslash + non-newline)
+     #  not followed by a name character, non-ASCII or backslash
+     -  not followed by an identifier start, a digit, '.' digit, or "->"
+   (for '/' a following '*' still gives CHAR when the comment is unterminated; a lone backslash is not covered) *)
+Theorem context_delim_lexeme : forall c rest, ctx_delim_ok c rest = true -> wins (LDelim c) rest.
+Proof. exact ctx_delim_lexeme. Qed.
+Print Assumptions context_delim_lexeme.
 
 (* value and type of the token: finish_token gives classify l = tokval (cls l) (text l) *)
 Theorem lexeme_token_value : forall l rest, ok_follow l rest = true ->
@@ -112,6 +137,11 @@ Definition example_seq : list lexeme :=
     LComment [32%N] 1 [ {| gc := 120; gseg := []; gstars := 0 |} ];           (* "/* **x*/" *)
     LDim {| nsign := [45%N]; nint := []; nfrac := Some [53%N] |} false (P 112) [P 120];  (* -.5px *)
     LDelim 59;
+    LFunction false (P 117) [P 110];                                          (* un(  *)
+    LDelim 45;                                                                 (* '-' before white space *)
+    LWs [32%N];
+    LIdent false (P 97) [P 110; P 100];                                        (* and( stays IDENT + CHAR *)
+    LDelim 40;
     LNum {| nsign := []; nint := [52%N]; nfrac := None |};
     LDelim 41 ].
 Example example_adjacent : adjacent example_seq = true /\ start_ok (concat (map text example_seq)) = true.
@@ -121,7 +151,8 @@ Example example_classified :
   [ (s "MEDIA_SYM", text (nth 0 example_seq (LDelim 0))); (s "S", s " ");
     (s "IDENT", s "-xA" ++ [92%N] ++ s "!"); (s "INCLUDES", s "~=");
     (s "STRING", [34%N] ++ s "a" ++ [34%N] ++ s "b" ++ [34%N]);
-    (s "COMMENT", s "/* **x*/"); (s "DIMENSION", s "-.5px"); (s "CHAR", s ";"); (s "NUMBER", s "4"); (s "CHAR", s ")") ].
+    (s "COMMENT", s "/* **x*/"); (s "DIMENSION", s "-.5px"); (s "CHAR", s ";"); (s "FUNCTION", s "un(");
+    (s "CHAR", s "-"); (s "S", s " "); (s "IDENT", s "and"); (s "CHAR", s "("); (s "NUMBER", s "4"); (s "CHAR", s ")") ].
 Proof. vm_compute. reflexivity. Qed.
 
 (* ---- classes covered by a finite sweep only (statements about exactly the listed texts) ---- *)
@@ -144,6 +175,44 @@ Print Assumptions context_delims_sweep_finite.
 Theorem atkeyword_lookup_sweep_finite : forallb (fun c => tok_is (fst c) (snd c)) at_cases = true.
 Proof. exact at_sweep. Qed.
 Print Assumptions atkeyword_lookup_sweep_finite.
+
+(* ---- RATIO (the root of C09-ratio-merges-number-slash-number): on a text that starts with an integer,
+   RATIO matches exactly  int ws* '/' ws* int  directly before ')' and not directly after '(' ---- *)
+Theorem ratio_token : forall ds1 w1 w2 ds2, ds1 <> [] -> forallb is_dig ds1 = true -> forallb is_ws w1 = true ->
+  forallb is_ws w2 = true -> ds2 <> [] -> forallb is_dig ds2 = true ->
+  forall dc prev rest, prev <> Some 40%N ->
+  try_prods productions dc false prev (ratio_text ds1 w1 w2 ds2 ++ 41%N :: rest) =
+  Some (Step (s "RATIO") (ratio_text ds1 w1 w2 ds2) true).
+Proof. exact ratio_token_lemma. Qed.
+Print Assumptions ratio_token.
+Theorem ratio_needs_paren : forall ds1 w1 w2 ds2, ds1 <> [] -> forallb is_dig ds1 = true -> forallb is_ws w1 = true ->
+  forallb is_ws w2 = true -> ds2 <> [] -> forallb is_dig ds2 = true ->
+  forall rest, hd_not is_dig rest = true -> hd_not (is_c 41) rest = true ->
+  Fails (R:=nat) (m ratio_re) (ratio_text ds1 w1 w2 ds2 ++ rest).
+Proof. exact ratio_needs_paren_lemma. Qed.
+Theorem ratio_needs_slash : forall ds tail, ds <> [] -> forallb is_dig ds = true -> hd_not is_dig tail = true ->
+  ratio_risk tail = false -> Fails (R:=nat) (m ratio_re) (ds ++ tail).
+Proof. exact ratio_fails. Qed.
+Theorem ratio_not_after_paren : forall t, rmatch ratio_re (Some 40%N) t = None.
+Proof. exact ratio_after_paren_lemma. Qed.
+Print Assumptions ratio_needs_paren.
+Example ratio_example :
+  try_prods productions true false (Some 32%N) (s "4 / 3) x") = Some (Step (s "RATIO") (s "4 / 3") true) /\
+  try_prods productions true false (Some 40%N) (s "4/3)") = Some (Step (s "NUMBER") (s "4") true) /\
+  try_prods productions true false None (s "4/3.5)") = Some (Step (s "NUMBER") (s "4") true).
+Proof. vm_compute. repeat split; reflexivity. Qed.
+
+(* ---- atkeyword_lookup_normalized: EVERY case / literal-escape / hex-escape respelling (relation
+   Respell.Respelling of the C10 builder) of the six at-keywords is given its symbol ---- *)
+Theorem atkeyword_lookup_normalized : forall kw sym found after,
+  In (kw, sym) atkeywords -> Respell.Respelling kw found ->
+  finish_token (s "ATKEYWORD") found after = (sym, found, found).
+Proof. exact RespellFacts.atkeyword_respell_lemma. Qed.
+Print Assumptions atkeyword_lookup_normalized.
+Theorem atkeyword_classified : forall kw sym found,
+  In (kw, sym) atkeywords -> Respell.Respelling kw found -> tokval (s "ATKEYWORD") found = (sym, found).
+Proof. exact atkeyword_tokval_lemma. Qed.
+Print Assumptions atkeyword_classified.
 
 (* ---- configuration: classification is a function of the production list only.  The DXImageTransform setting
    prepends dx_production; for every text that does not start with 'p' the first token is unchanged ---- *)
